@@ -840,7 +840,9 @@ class CGen:
         if k == 'double':
             return 'double'
         if k == 'fp80':
-            raise Unsupported('x86_fp80')
+            # storage only (clang allocates the long double temporaries of dead '?:' arms in the entry block); every
+            # *operation* on an x86_fp80 value in a live block still refuses the function (CBMC's long double is binary128)
+            return 'struct vp_fp80'
         if k == 'void':
             return 'void'
         if k == 'ptr':
@@ -1135,6 +1137,8 @@ class FuncGen:
     def cast_expr(self, op, v, dt, lab):
         st = self.rt(v[2])
         d = self.rt(dt)
+        if st.k == 'fp80' or d.k == 'fp80':
+            raise Unsupported('x86_fp80 conversion in a live block')
         cd = self.cg.ctype(dt)
         e = self.val(v)
         if op in ('zext', 'trunc'):
@@ -1462,10 +1466,14 @@ class FuncGen:
             return
         if op == 'load':
             pv = ins.a[0]
+            if self.rt(ins.ty).k == 'fp80':
+                raise Unsupported('x86_fp80 load in a live block')
             out.append('  %s = *%s;' % (self.declare(ins.res, ins.ty), self.val(pv)))
             return
         if op == 'store':
             v, pv = ins.a
+            if v[2] is not None and self.rt(v[2]).k == 'fp80':
+                raise Unsupported('x86_fp80 store in a live block')
             out.append('  *%s = %s;' % (self.val(pv), self.val(v)))
             return
         if op == 'gep':
@@ -1735,6 +1743,7 @@ PRELUDE = r'''
 #include <string.h>
 typedef unsigned __int128 vp_u128;
 typedef __int128 vp_s128;
+struct vp_fp80 { uint8_t b[16]; };
 /* every IR 'mul' goes through VP_MULn: the machine product modulo 2^n, or -- when a job abstracts multiplication
    (-DVP_ABSTRACT_MUL) -- one uninterpreted function per width shared by the extracted code and the contract text, so
    that relational obligations follow by congruence instead of a multiplier-equivalence SAT problem */
